@@ -158,6 +158,12 @@ type vpsEnv struct {
 	parkedNew []chan net.Addr // nil => GetNewAddress fails
 	released  bool            // after ShutBegin / stop: gates fail at once
 
+	// every connection a ServerPeer was made for, by slot, and the done
+	// messages (peerDoneHandler -> donePeers) the peer handler has TAKEN, by slot
+	peerConns map[int][]*vfeConn
+	donesMu   sync.Mutex
+	dones     map[int]int
+
 	bmMu   sync.Mutex
 	bmHas  map[*ServerPeer]bool // peers the block manager has been told of (NewPeer) and not yet lost (DonePeer)
 	bmNews map[int]int          // NewPeer notifications per slot
@@ -300,7 +306,7 @@ func vpsStart(dir string, cfg vpsCfg, rng *rand.Rand) (*vpsEnv, error) {
 	}
 	e := &vpsEnv{cfg: cfg, db: db, rng: rng, slots: make([]*vfeConn, cfg.NP), stepDl: map[int]bool{},
 		pongs: map[int]int{}, fwdDone: make(chan struct{}), handlerDone: make(chan struct{}),
-		bmHas: map[*ServerPeer]bool{}, bmNews: map[int]int{}}
+		bmHas: map[*ServerPeer]bool{}, bmNews: map[int]int{}, peerConns: map[int][]*vfeConn{}, dones: map[int]int{}}
 	e.ips = vpsIPs(rng, cfg.NI, cfg.SG)
 	for range e.ips {
 		var ps []int
@@ -358,17 +364,39 @@ func vpsStart(dir string, cfg vpsCfg, rng *rand.Rand) (*vpsEnv, error) {
 		userAgentVersion:  "0.0.1",
 	}
 	bm := &blockManager{peerChan: make(chan interface{}, 64), quit: make(chan struct{})}
-	mk := func(q chan interface{}) *ChainService {
+	mk := func(q chan interface{}, done chan *ServerPeer) *ChainService {
 		return &ChainService{
 			chainParams: shared.chainParams, BlockHeaders: shared.BlockHeaders,
-			addrManager: shared.addrManager, newPeers: shared.newPeers, donePeers: shared.donePeers,
+			addrManager: shared.addrManager, newPeers: shared.newPeers, donePeers: done,
 			peerHeightsUpdate: shared.peerHeightsUpdate, quit: shared.quit, timeSource: shared.timeSource,
 			services: shared.services, banStore: shared.banStore, userAgentName: shared.userAgentName,
 			userAgentVersion: shared.userAgentVersion, blockManager: bm, query: q,
 			nameResolver: resolver,
 		}
 	}
-	s, inner := mk(make(chan interface{})), mk(make(chan interface{}))
+	// ... and in the done channel: peerDoneHandler (a method of s) sends into the buffered channel
+	// NewChainService makes; a second forwarder hands every message to the peer handler through an
+	// unbuffered one and counts it once the handler has TAKEN it.  That is how the driver knows that
+	// the handler has dealt with the end of every connection before the next step begins (a done
+	// message still in flight would be handled with the peer lists of a later step).
+	s, inner := mk(make(chan interface{}), shared.donePeers), mk(make(chan interface{}), make(chan *ServerPeer))
+	go func() {
+		for {
+			select {
+			case sp := <-s.donePeers:
+				select {
+				case inner.donePeers <- sp:
+					e.donesMu.Lock()
+					e.dones[vpsSlot(sp)]++
+					e.donesMu.Unlock()
+				case <-s.quit:
+					return
+				}
+			case <-s.quit:
+				return
+			}
+		}
+	}()
 	go func() { // stub block manager: notes which peers it has been told of
 		for {
 			select {
@@ -711,17 +739,45 @@ func (e *vpsEnv) applicable(a vfeAct) bool {
 	return e.sh < 2
 }
 
-// newConn waits for the outcome of a connection that has just been handed to
-// the client: closed by it, or handshake started.
+// connOutcome waits for the outcome of a connection that has just been handed
+// to the client: closed by it, or handshake started.
 func (e *vpsEnv) connOutcome(c *vfeConn) string {
 	ok := vfeUntil(vfeWait, func() bool { return c.closedByClient() || c.wrote("version") })
 	switch {
 	case !ok:
 		return "hang"
-	case c.closedByClient():
+	case c.closedByClient() && !c.wrote("version"):
 		return "refused"
 	}
+	// the client has made a ServerPeer for it: its end will be reported to the peer handler
+	e.peerConns[c.slot] = append(e.peerConns[c.slot], c)
 	return "accepted"
+}
+
+// quiesce waits until the peer handler has taken the done message of every
+// connection that has ended, and has finished handling it.
+func (e *vpsEnv) quiesce() bool {
+	if e.sh >= 2 {
+		return true
+	}
+	ok := vfeUntil(vfeWait, func() bool {
+		e.donesMu.Lock()
+		defer e.donesMu.Unlock()
+		for p, cs := range e.peerConns {
+			n := 0
+			for _, c := range cs {
+				if c.closedByClient() {
+					n++
+				}
+			}
+			if e.dones[p] < n {
+				return false
+			}
+		}
+		return true
+	})
+	e.inner.ConnectedCount() // one handler, in order: the arm that took the last message has returned
+	return ok
 }
 
 var (
@@ -1164,6 +1220,7 @@ func vpsRunOnce(p vpsPathIn, scratch string, seed int64) (out vpsPathOut) {
 		if e.sh < 2 {
 			e.banLookupsDone()
 		}
+		e.quiesce()
 		vfeUntil(vfeWait, func() bool {
 			o1 := e.observe()
 			time.Sleep(12 * time.Millisecond) // > the retry delay of a permanent request (1 ms)
@@ -1191,6 +1248,10 @@ func vpsRunOnce(p vpsPathIn, scratch string, seed int64) (out vpsPathOut) {
 		}
 		e.stepDl = map[int]bool{}
 		a, conc := e.exec(s.Act, s.Act.Res)
+		if !e.quiesce() && a.Res != "hang" {
+			a.Res = "hang"
+			conc += " (a done message was not taken by the peer handler)"
+		}
 		var o vpsObs
 		if !e.diverged {
 			vfeUntil(vfeWait, func() bool {
